@@ -499,6 +499,45 @@ func mkCmp(op string, a, b *Term) *Term {
 	if sameTerm(a, b) {
 		return mkBool(op == "<=" || op == ">=")
 	}
+	// sign analysis of a-b over non-negative atoms (string lengths)
+	if s, ok := linSign(a, b); ok {
+		switch op {
+		case ">=":
+			if s >= 0 {
+				return tTrue
+			}
+			if s == -2 {
+				return tFalse
+			}
+		case ">":
+			if s == 2 {
+				return tTrue
+			}
+			if s <= 0 && s != 1 {
+				if s == -1 || s == -2 || s == 0 {
+					if s != 0 || true {
+						if s == -1 || s == -2 {
+							return tFalse
+						}
+					}
+				}
+			}
+		case "<=":
+			if s == -1 || s == -2 {
+				return tTrue
+			}
+			if s == 2 {
+				return tFalse
+			}
+		case "<":
+			if s == -2 {
+				return tTrue
+			}
+			if s >= 1 {
+				return tFalse
+			}
+		}
+	}
 	// str.len(x) >= 0 etc.
 	if a.op == "str.len" && b.op == "int" {
 		if (op == ">=" && b.ival.Sign() <= 0) || (op == ">" && b.ival.Sign() < 0) {
@@ -699,11 +738,42 @@ func fixedLenOf(name string) (int64, bool) {
 	return n, true
 }
 
-func mkLen(s *Term) *Term {
-	if s.op == "var" {
-		if n, ok := fixedLenOf(s.name); ok {
-			return mkInt(n)
+// knownLen: terms whose byte length is fixed by construction (ideal hash
+// outputs, base64 of a fixed-length input, fixed-size random values).
+func knownLen(s *Term) (int64, bool) {
+	switch {
+	case s.op == "str":
+		return int64(len(s.sval)), true
+	case s.op == "var":
+		return fixedLenOf(s.name)
+	case s.op == "uf:SHA256" || s.op == "uf:HMAC":
+		return 32, true
+	case s.op == "uf:SHA1":
+		return 20, true
+	case strings.HasPrefix(s.op, "uf:b64enc_"):
+		if n, ok := knownLen(s.args[0]); ok {
+			if strings.Contains(s.op, "raw") {
+				return (n*8 + 5) / 6, true
+			}
+			return (n + 2) / 3 * 4, true
 		}
+	case s.op == "str.++":
+		var tot int64
+		for _, a := range s.args {
+			n, ok := knownLen(a)
+			if !ok {
+				return 0, false
+			}
+			tot += n
+		}
+		return tot, true
+	}
+	return 0, false
+}
+
+func mkLen(s *Term) *Term {
+	if n, ok := knownLen(s); ok {
+		return mkInt(n)
 	}
 	switch s.op {
 	case "str":
@@ -1228,3 +1298,41 @@ func linEqual(a, b *Term) bool {
 	}
 	return true
 }
+
+// linSign analyses a-b when every non-constant atom is a string length
+// (non-negative): 2: a-b > 0 always; 1: a-b >= 0 always; -1: a-b <= 0 always;
+// -2: a-b < 0 always.  ok=false when nothing is known.
+func linSign(a, b *Term) (int, bool) {
+	if a.sort != SInt || b.sort != SInt || (a.op == "int" && b.op == "int") {
+		return 0, false
+	}
+	lf := linearize(mkSubRaw(a, b))
+	if len(lf.coeff) == 0 {
+		return 0, false
+	}
+	allPos, allNeg := true, true
+	for k, v := range lf.coeff {
+		if !strings.HasPrefix(k, "(str.len ") {
+			return 0, false
+		}
+		if v.Sign() < 0 {
+			allPos = false
+		}
+		if v.Sign() > 0 {
+			allNeg = false
+		}
+	}
+	switch {
+	case allPos && lf.c.Sign() > 0:
+		return 2, true
+	case allPos && lf.c.Sign() == 0:
+		return 1, true
+	case allNeg && lf.c.Sign() < 0:
+		return -2, true
+	case allNeg && lf.c.Sign() == 0:
+		return -1, true
+	}
+	return 0, false
+}
+
+func mkSubRaw(a, b *Term) *Term { return app("-", SInt, a, b) }
